@@ -1,4 +1,5 @@
 """C08 - output modes agree; joined records are justified by and faithful to their parts."""
+from vf import core
 from vf import e2e, gen, hooks, oracles, pipeline, text
 from vf.core import Shard, rng_for
 
@@ -37,8 +38,8 @@ def segpairs(row):
 def judge(case, wd, sh):
     slim = lambda focus=None: dict(pipeline.slim_case(case), kind='e2e', focus=focus)
     out, rows = {}, {}
-    for mode in gen.MODES:
-        run = pipeline.run_inprocess(dict(case, mode=mode), wd, tag=mode, serial=True)
+    for mode in ['all', 'best', 'separate', 'joined']:
+        run = (pipeline.run_inprocess if mode == 'all' else pipeline.run_forked)(dict(case, mode=mode), wd, tag=mode, serial=True)
         sh.evaluations += 1
         if run.error:
             sh.count('aborted-runs')
@@ -160,7 +161,7 @@ def run_shard(spec):
                                      param_keys=('d', 'ms', 'bs', 'p'), ref_kw={'repeats': rng.random() < 0.2})
         case['params']['diff'] = rng.choice([100000, 100000, 20000, 5000, 500000, 0])
         case['gen'] = [spec['seed'], spec['shard'], i]
-        judge(case, spec['workdir'], sh)
+        core.isolated(judge, sh, case, spec['workdir'])
     return sh
 
 
